@@ -348,19 +348,23 @@ def run_case(case: dict[str, Any]) -> list[dict[str, Any]]:
         shutil.rmtree(tmp, ignore_errors=True)
 
 
-def run_cases(cases: list[dict[str, Any]], workers: int | None = None) -> list[dict[str, Any]]:
+def make_pool(workers: int | None = None) -> Any:
+    """Fork the worker processes (do this BEFORE starting any thread)."""
+    import multiprocessing as mp
+
+    w = workers or max(1, min(8, (os.cpu_count() or 2) // 2))
+    return mp.get_context("fork").Pool(w)
+
+
+def run_cases(cases: list[dict[str, Any]], pool: Any = None) -> list[dict[str, Any]]:
     """Execute the cases (process pool; the result does not depend on scheduling:
     every case has its own database files and ECU objects)."""
     if not cases:
         return []
-    w = workers or max(1, min(8, (os.cpu_count() or 2) // 2))
-    if w == 1 or len(cases) < 8:
+    if pool is None or len(cases) < 8:
         res = [run_case(c) for c in cases]
     else:
-        import multiprocessing as mp
-
-        with mp.get_context("fork").Pool(w) as pool:
-            res = pool.map(run_case, cases, chunksize=max(1, len(cases) // (w * 8)))
+        res = pool.map(run_case, cases, chunksize=max(1, min(16, len(cases) // 64)))
     return [t for r in res for t in r]
 
 
